@@ -649,7 +649,7 @@ static void
 gen_c02_table (gen_t *g, rng_t *r, scenario_t *sc)
 {
     const pixman_fast_path_t *e = NULL;
-    int tries, i, n_req = (int)rng_range (r, 3, 7), fd, dw, dh, opi = -1, has_mask;
+    int tries, i, n_req = (int)rng_range (r, 3, 7), fd, dw, dh, opi = -1, has_mask, dst_extra = 0;
     if (n_fp < 0) collect_fast_paths ();
     for (tries = 0; tries < 16; tries++)
     {
@@ -663,8 +663,13 @@ gen_c02_table (gen_t *g, rng_t *r, scenario_t *sc)
     fd = fmt_index (e->dest_format);
     if (fd < 0) fd = fmt_index (rng_chance (r, 1, 2) ? PIXMAN_a8r8g8b8 : PIXMAN_r5g6b5);
     dw = gen_pick_size (g, 150); dh = (int)rng_range (r, 1, 4);
-    if (table_tight) gen_bits_exact (g, 0, fd, dw, dh, 0, rng_chance (r, 1, 6), (int)rng_n (r, 16), 8 * (int)rng_n (r, 2));
-    else gen_bits_exact (g, 0, fd, dw + 8, dh + 3, (int)rng_n (r, 2), rng_chance (r, 1, 6), (int)rng_n (r, 16), 0);
+    /* now and then rows of several hundred pixels: counters and masks that were sized for "a row" */
+    if (rng_chance (r, 1, 8)) { dw = (int)rng_range (r, 256, 700); dh = (int)rng_range (r, 1, 2); }
+    /* tight: operands are exactly what the request needs; the destination is that too, or larger so
+     * that the request can sit at an offset the operands know nothing about */
+    dst_extra = table_tight && rng_chance (r, 1, 2);
+    if (table_tight && !dst_extra) gen_bits_exact (g, 0, fd, dw, dh, 0, rng_chance (r, 1, 6), (int)rng_n (r, 16), 8 * (int)rng_n (r, 2));
+    else gen_bits_exact (g, 0, fd, dw + 8, dh + 3, table_tight ? 0 : (int)rng_n (r, 2), rng_chance (r, 1, 6), (int)rng_n (r, 16), table_tight ? 8 * (int)rng_n (r, 2) : 0);
     table_operand (g, r, sc, 2, e->src_format, e->src_flags, dw, dh, 0);
     has_mask = e->mask_format != PIXMAN_null;
     if (has_mask) table_operand (g, r, sc, 3, e->mask_format, e->mask_flags, dw, dh, 1);
@@ -677,8 +682,10 @@ gen_c02_table (gen_t *g, rng_t *r, scenario_t *sc)
 	int k;
 	if (table_tight && rng_chance (r, 3, 4))
 	{
-	    /* the whole destination from the whole of the operands: last pixel of the last row of each */
+	    /* the whole of the operands, to their last pixel of their last row; into the whole
+	     * destination, or at an offset in a larger one */
 	    c[7] = c[8] = c[9] = c[10] = c[11] = c[12] = 0; c[13] = dw; c[14] = dh;
+	    if (dst_extra) { c[11] = rng_range (r, 0, 8); c[12] = rng_range (r, 0, 3); }
 	}
 	/* pixel content in short runs of transparent / opaque / mixed, fresh for most requests */
 	for (k = 0; k < 3; k++)
